@@ -44,18 +44,18 @@ theorem DId.micro : ∀ rt, MReach rt → ∀ s, DIdP s (getS rt s) rt.client :=
   · intro s a ha rt hr hg h
     refine all_setS_cl DIdP rt s _ ?_ h
     intro he hm hF
-    rw [(src_keeps_script s a ha _).2] at he; rw [src_keeps_F s a ha] at hF
-    exact DId.src s rt.client rt.state a ha _ hg (TInvAll.micro rt hr s) (DUse.micro rt hr s he hm) (DLog.micro rt hr s he hm) he hF (h s he hm hF)
+    rw [src_keeps_F s a ha] at hF
+    exact DId.src s rt.client rt.state a ha _ hg (TInvAll.micro rt hr s) (DUse.micro rt hr s (Here.intro _) hm) (DLog.micro rt hr s (Here.intro _) hm) hF (h s (Here.intro _) hm hF)
   · intro s a ha rt _ hg h
     refine all_setS_cl DIdP rt s _ ?_ h
     intro he hm hF
-    rw [(flt_keeps_script a ha _).2] at he; rw [flt_keeps_F a ha] at hF
-    exact DId.flt s rt.client a ha _ hg (h s he hm hF)
+    rw [flt_keeps_F a ha] at hF
+    exact DId.flt s rt.client a ha _ hg (h s (Here.intro _) hm hF)
   · intro s a ha rt hr hg h
     refine all_setS_cl DIdP rt s _ ?_ h
     intro he hm hF
-    rw [(snk_keeps_script s a ha _).2] at he; rw [snk_keeps_F s a ha] at hF
-    exact DId.snk s rt.client rt.state a ha _ hg (TInvAll.micro rt hr s) (DUse.micro rt hr s he hm) (h s he hm hF)
+    rw [snk_keeps_F s a ha] at hF
+    exact DId.snk s rt.client rt.state a ha _ hg (TInvAll.micro rt hr s) (DUse.micro rt hr s (Here.intro _) hm) (h s (Here.intro _) hm hF)
   · intro a ha rt hr hg h
     exact client_families DId.Kept DId.client_base DId.client_mon DId.client_cfg DId.client_start DId.client_err
       DId.client_stop DId.client_acc DId.client_flush a ha rt (TInvAll.micro rt hr) (DUse.micro rt hr) (DLog.micro rt hr) hg h
